@@ -5,6 +5,7 @@
 mod rng;
 mod acl;
 mod addr;
+mod httpcodec;
 mod httpstore;
 mod store;
 mod timeunit;
@@ -49,6 +50,7 @@ fn main() {
         "acl" => acl::run(&mut out, seed, cases, &replay),
         "addr" => addr::run(&mut out, seed, cases, &replay),
         "timeunit" => timeunit::run(&mut out, seed, cases),
+        "httpcodec" => httpcodec::run(&mut out, seed, cases, &replay),
         "httpstore" => store::run(&mut out, seed, cases, maxops, &replay, true),
         _ => {
             eprintln!("usage: aqv <family> [--seed n] [--cases n] [--maxops n] [--replay file]");
